@@ -1522,3 +1522,172 @@ impl<'a> Gen<'a> {
 pub fn all_prefixes(bytes: &[u8], max_len: usize) -> Vec<Vec<u8>> {
     (0..bytes.len().min(max_len)).map(|i| bytes[..i].to_vec()).collect()
 }
+
+/// `deco <Type> <opts> <offset ticks> x<hex>`: decode with `client_offset`
+pub fn run_deco(ty: &str, lim: &Lim, off: i64, bytes: &[u8]) -> (String, DecOut) {
+    let mut o = lim.options();
+    o.client_offset = chrono::TimeDelta::seconds(off / 10_000_000) + chrono::TimeDelta::nanoseconds((off % 10_000_000) * 100);
+    match Val::decode(ty, bytes, &o) {
+        None => ("bad-op".to_string(), DecOut::BadOp),
+        Some(Err(_)) => ("err".to_string(), DecOut::Err),
+        Some(Ok((v, pos))) => {
+            let re = v.try_encode().unwrap_or_default();
+            (format!("ok {} x{} = {}", pos, hex(&re), v.tree()), DecOut::Ok(v, pos))
+        }
+    }
+}
+
+/// First-byte sweeps (round 3): every value of each mask / type byte of the composite decoders, followed by
+/// valid field bytes for the fields that byte announces.  `k` enumerates 6 x 256 points; returns the type
+/// to decode as and the bytes.
+pub fn byte_sweep(k: usize) -> (&'static str, Vec<u8>) {
+    let m = (k % 256) as u8;
+    let ts = 132_000_000_000_000_000i64.to_le_bytes();
+    let s3 = [3u8, 0, 0, 0, b'a', b'b', b'c'];
+    match (k / 256) % 6 {
+        0 => {
+            // DataValue encoding mask (bits 6 and 7 are ignored by from_bits_truncate)
+            let mut b = vec![m];
+            if m & 1 != 0 {
+                b.extend_from_slice(&[0x01, 0x01]);
+            }
+            if m & 2 != 0 {
+                b.extend_from_slice(&0x8000_0000u32.to_le_bytes());
+            }
+            if m & 4 != 0 {
+                b.extend_from_slice(&ts);
+            }
+            if m & 16 != 0 {
+                b.extend_from_slice(&7u16.to_le_bytes());
+            }
+            if m & 8 != 0 {
+                b.extend_from_slice(&ts);
+            }
+            if m & 32 != 0 {
+                b.extend_from_slice(&9u16.to_le_bytes());
+            }
+            b.push(0xEE);
+            ("DataValue", b)
+        }
+        1 => {
+            // DiagnosticInfo encoding mask
+            let mut b = vec![m];
+            for (bit, v) in [(1u8, 11i32), (2, 12), (8, 13), (4, 14)] {
+                if m & bit != 0 {
+                    b.extend_from_slice(&v.to_le_bytes());
+                }
+            }
+            if m & 16 != 0 {
+                b.extend_from_slice(&s3);
+            }
+            if m & 32 != 0 {
+                b.extend_from_slice(&0x8001_0000u32.to_le_bytes());
+            }
+            if m & 64 != 0 {
+                b.push(0x00);
+            }
+            b.push(0xEE);
+            ("DiagnosticInfo", b)
+        }
+        2 => {
+            // LocalizedText mask inside a Variant
+            let mut b = vec![21, m];
+            if m & 1 != 0 {
+                b.extend_from_slice(&s3);
+            }
+            if m & 2 != 0 {
+                b.extend_from_slice(&s3);
+            }
+            b.push(0xEE);
+            ("Variant", b)
+        }
+        3 | 4 => {
+            // NodeId type byte (3) / ExpandedNodeId encoding byte (4) inside a Variant
+            let expanded = (k / 256) % 6 == 4;
+            let mut b = vec![if expanded { 18 } else { 17 }, m];
+            match if expanded { m & 0x0f } else { m } {
+                0 => b.push(7),
+                1 => b.extend_from_slice(&[2, 0x34, 0x12]),
+                2 => b.extend_from_slice(&[2, 1, 0x78, 0x56, 0x34, 0x12]),
+                3 | 5 => {
+                    b.extend_from_slice(&[1, 0]);
+                    b.extend_from_slice(&s3);
+                }
+                4 => {
+                    b.extend_from_slice(&[1, 0]);
+                    b.extend_from_slice(&[0xAB; 16]);
+                }
+                _ => b.extend_from_slice(&[1, 0, 2, 0]),
+            }
+            if expanded && m & 0x80 != 0 {
+                b.extend_from_slice(&s3);
+            }
+            if expanded && m & 0x40 != 0 {
+                b.extend_from_slice(&5u32.to_le_bytes());
+            }
+            b.push(0xEE);
+            ("Variant", b)
+        }
+        _ => {
+            // ExtensionObject body encoding byte inside a Variant
+            let mut b = vec![22, 0, 9, m];
+            if m == 1 || m == 2 {
+                b.extend_from_slice(&s3);
+            }
+            b.push(0xEE);
+            ("Variant", b)
+        }
+    }
+}
+
+/// Length-field sweep (round 3): every length-bearing leaf × the interesting declared lengths.  `k` enumerates
+/// 8 kinds × 12 lengths; `limit` is the limit in force for that kind (the caller passes its options).
+/// Bodies are supplied for small non-negative lengths so that limit and limit+1 are both decodable inputs.
+pub fn length_sweep(k: usize, lim: &Lim) -> (&'static str, Vec<u8>) {
+    let kind = k % 8;
+    let limit = match kind {
+        0 | 2 | 5 => lim.max_str,
+        1 | 6 => lim.max_bytes,
+        _ => lim.max_arr,
+    } as i64;
+    let len: i64 = match (k / 8) % 12 {
+        0 => -2,
+        1 => -1,
+        2 => 0,
+        3 => 1,
+        4 => i32::MIN as i64,
+        5 => i32::MIN as i64 + 1,
+        6 => i32::MAX as i64,
+        7 => limit - 1,
+        8 => limit,
+        9 => limit + 1,
+        10 => limit + 2,
+        _ => 3,
+    };
+    let len = len.clamp(i32::MIN as i64, i32::MAX as i64) as i32;
+    let body = (len.max(0) as usize).min(70_000);
+    let mut b: Vec<u8> = Vec::new();
+    let ty = match kind {
+        0 => { b.push(12); "Variant" }                                  // String
+        1 => { b.push(15); "Variant" }                                  // ByteString
+        2 => { b.push(16); "Variant" }                                  // XmlElement
+        3 => { b.push(0x81); "Variant" }                                // Boolean array
+        4 => { b.extend_from_slice(&[0xC1, 1, 0, 0, 0, 1]); "Variant" } // dimensions of a 1-element array
+        5 => { b.extend_from_slice(&[17, 3, 0, 0]); "Variant" }         // NodeId string identifier
+        6 => { b.extend_from_slice(&[22, 0, 0, 1]); "Variant" }         // ExtensionObject byte string body
+        _ => { b.extend_from_slice(&[0x10]); "DiagnosticInfo" }         // additional info string
+    };
+    b.extend_from_slice(&len.to_le_bytes());
+    match kind {
+        3 => b.extend(std::iter::repeat(1u8).take(body)),
+        4 => {
+            for _ in 0..body.min(5000) {
+                b.extend_from_slice(&1i32.to_le_bytes());
+            }
+        }
+        1 | 6 => b.extend(std::iter::repeat(0u8).take(body)),
+        _ => b.extend(std::iter::repeat(b'a').take(body)),
+    }
+    b.push(0xEE);
+    (ty, b)
+}
